@@ -4,7 +4,7 @@
    message-level protocol of ropt/plugins/optimizer/external.py; the OS (signal delivery, FIFO
    buffering, real time) is not modelled -- see MANIFEST level_note: partial w.r.t. OS behaviour. *)
 From Coq Require Import List Bool Arith ZArith String Lia.
-From Ropt Require Import Model.Pipe Proofs.Pipe.
+From Ropt Require Import Model.Framing Proofs.Framing Model.Pipe Proofs.Pipe.
 Import ListNotations.
 Local Open Scope string_scope.
 Local Open Scope list_scope.
@@ -121,6 +121,27 @@ Theorem C20_signal_irrelevant : forall ev s cfg x0 f1 f2 sch r1 st1,
     s_par st2 = s_par st1 /\ running (s_child st2) = running (s_child st1).
 Proof. exact signal_irrelevant. Qed.
 
+(* (a) framing of the messages on the FIFO (`json + "\n--READY--\n"`, _JSONPipeCommunicator.read): for EVERY list of
+   messages (without newline, none equal to the delimiter text -- what json.dumps produces) and EVERY way the FIFO
+   cuts their byte stream into pieces, polling the reader after every piece returns exactly the messages, in
+   order, and leaves an empty buffer *)
+Theorem C20_framing_any_chunking :
+  forall (A : Type) (eq_dec : forall x y : A, {x = y} + {x <> y}) (nl : A) (delim : list A),
+  ~ In nl delim ->
+  forall cs ms, Forall (Proofs.Framing.good A nl delim) ms ->
+  List.concat cs = List.concat (map (Model.Framing.wire A nl delim) ms) ->
+  Model.Framing.run A eq_dec nl delim [] cs = (ms, []).
+Proof. exact Proofs.Framing.run_any_chunking. Qed.
+
+(* ... in particular one message cut in two at ANY offset, also inside the delimiter line (a message of
+   65536*k + 1..9 bytes): nothing is returned after the first piece, the message after the second *)
+Theorem C20_framing_two_pieces :
+  forall (A : Type) (eq_dec : forall x y : A, {x = y} + {x <> y}) (nl : A) (delim : list A),
+  ~ In nl delim ->
+  forall m p q, Proofs.Framing.good A nl delim m -> q <> [] -> p ++ q = Model.Framing.wire A nl delim m ->
+  Model.Framing.run_trace A eq_dec nl delim [] [p; q] = [[]; [m]].
+Proof. exact Proofs.Framing.two_pieces. Qed.
+
 (* non-vacuity: a two-evaluation script; without fault the run returns after both evaluations; a child
    killed (SIGKILL) or terminated (SIGTERM) when about to write its 4th message gives the abnormal-termination
    error after one evaluation; a child that dies right after the last answer -- the run was complete -- still
@@ -165,3 +186,5 @@ Print Assumptions C20_terminates.
 Print Assumptions C20_no_orphan.
 Print Assumptions C20_schedule_independent.
 Print Assumptions C20_signal_irrelevant.
+Print Assumptions C20_framing_any_chunking.
+Print Assumptions C20_framing_two_pieces.
